@@ -36,6 +36,7 @@ pub struct Release {
 
 struct State {
     armed: Option<u32>,
+    skip: u32,
     blocks: [Block; CAP],
     nblocks: usize,
     // open-addressing hash from user address to block index + 1
@@ -65,6 +66,7 @@ impl Tracking {
         Tracking {
             st: UnsafeCell::new(State {
                 armed: None,
+                skip: 0,
                 blocks: [EMPTY_BLOCK; CAP],
                 nblocks: 0,
                 index: [0; HCAP],
@@ -86,7 +88,16 @@ impl Tracking {
 
     /// The next allocation is a GC block with this tag.
     pub fn arm(&self, tag: u32) {
-        self.st().armed = Some(tag);
+        let st = self.st();
+        st.armed = Some(tag);
+        st.skip = 0;
+    }
+
+    /// The allocation after the next `skip` allocations is a GC block with this tag.
+    pub fn arm_skip(&self, tag: u32, skip: u32) {
+        let st = self.st();
+        st.armed = Some(tag);
+        st.skip = skip;
     }
 
     pub fn disarm(&self) -> bool {
@@ -205,6 +216,10 @@ impl Tracking {
 unsafe impl GlobalAlloc for Tracking {
     unsafe fn alloc(&self, layout: Layout) -> *mut u8 {
         let st = self.st();
+        if st.armed.is_some() && st.skip > 0 {
+            st.skip -= 1;
+            return unsafe { System.alloc(layout) };
+        }
         if let Some(tag) = st.armed.take() {
             if st.nblocks >= CAP {
                 st.overflow = true;
